@@ -827,7 +827,10 @@ def parse_tree_to_objgraph(
         # Collect rules for textx-tools
         if inst is not None and metamodel.textx_tools_support:
             pos = (inst._tx_position, inst._tx_position_end)
-            pos_rule_dict[pos] = inst
+            # Contained objects are finished first. If they share the whole
+            # span with their container the innermost is kept.
+            if pos not in pos_rule_dict:
+                pos_rule_dict[pos] = inst
 
         return inst
 
@@ -1055,8 +1058,9 @@ def parse_tree_to_objgraph(
 
             # Dict for storing rules where key is position of rule instance in
             # text. Sorted based on nested rules.
+            # (a span comes before every other span that contains it)
             model._pos_rule_dict = OrderedDict(
-                sorted(pos_rule_dict.items(), key=lambda x: x[0], reverse=True)
+                sorted(pos_rule_dict.items(), key=lambda x: (-x[0][0], x[0][1]))
             )
     # exception occurred during model creation
     except:  # noqa
